@@ -296,6 +296,19 @@ func genUnits(rt *rapid.T) ([]string, []string) {
 		}
 		globals = append(globals, "rkc", "rk2", "rk3", "kg")
 	}
+	// a function variable set by one statement, and later rebound and called by name in one unit that is never cut
+	// apart (the call must reach the function assigned just before it, whatever the variable held when the unit was compiled)
+	if rx.Chance(rt, "funcvar", 1, 2) {
+		pos := rx.Range(rt, "fvpos", 1, len(units))
+		extra := []string{"func hkA(a int) int {\n\treturn a + 1\n}", "func hkB(a int) int {\n\treturn a * 10\n}", "hk := hkA", "rh1 := hk(2)",
+			"hk = hkB\nrh2 := hk(2)", "func swapHk() {\n\thk = hkA\n}", "swapHk()\nrh3 := hk(2)"}
+		for _, u := range extra {
+			pos = rx.Range(rt, "fvnext", pos, len(units))
+			units = append(units[:pos], append([]string{u}, units[pos:]...)...)
+			pos++
+		}
+		globals = append(globals, "rh1", "rh2", "rh3")
+	}
 	// script packages imported between the other statements: each import comes before its uses, anywhere else they may
 	// be cut apart; two of the packages have the same package name and are told apart by their aliases
 	if rx.Chance(rt, "scriptimports", 1, 2) {
